@@ -243,6 +243,8 @@ pub enum Consumer {
     DropAt(u64),
     /// keep the receiver but do not poll it before this time (a backlog builds up)
     StartAt(u64),
+    /// keep the receiver alive and never poll it (an application that only wants the handle)
+    Never,
 }
 
 #[derive(Clone, Debug, PartialEq, Eq, Serialize, Deserialize)]
